@@ -1,15 +1,27 @@
 #!/venv/bin/python
-"""Regenerate MANIFEST.json from the property modules in tools/props/ (run after adding a property)."""
+"""Regenerate MANIFEST.json from the property modules in tools/props/ (run after adding a property).
+usage: mk_manifest.py [--only Cxx]   (--only: refresh that property's entry, keep every other entry as committed: the texts of
+other properties' modules may describe work in progress whose Coq files are not committed yet)"""
 import os, sys, json, importlib
 ROOT = os.path.dirname(os.path.dirname(os.path.abspath(__file__)))
 sys.path.insert(0, os.path.join(ROOT, 'tools'))
 props = [json.loads(l)['id'] for l in open(os.path.join(ROOT, 'properties.jsonl'))]
 checks, na = [], []
+only = sys.argv[sys.argv.index('--only') + 1] if '--only' in sys.argv else None
+old = {}
+if only:
+    try:
+        old = {c['property_id']: c for c in json.load(open(os.path.join(ROOT, 'MANIFEST.json')))['checks']}
+    except Exception:
+        old = {}
 registered = open(os.path.join(ROOT, 'tools', 'registered.txt')).read().split()
 for p in props:
     f = os.path.join(ROOT, 'tools', 'props', p.lower() + '.py')
     if p not in registered or not (os.path.exists(f) and os.path.exists(os.path.join(ROOT, 'coq', 'props', p + '_Props.v'))):
         na.append({'property_id': p, 'reason': 'check not built yet (see DESIGN.md section 10 build order); the technique applies, nothing is claimed until the theorems and the correspondence exist'})
+        continue
+    if only and p != only and p in old:
+        checks.append(old[p])
         continue
     m = importlib.import_module('props.' + p.lower())
     checks.append({
